@@ -249,13 +249,14 @@ Proof.
   - exact (Hgo m c hb).
 Qed.
 
-Lemma parse_headers_np : forall h a d st, np (parse_headers legacy h a d st).
+Lemma parse_headers_np : forall h f t c b d st, np (parse_headers legacy h f t c b d st).
 Proof.
   intros. unfold parse_headers. apply np_bind.
   - unfold parse_ct_charset. destruct (is_empty (hget h hdr_content_type)); auto with eml.
     destruct (pmh_ok (hget h hdr_content_type)) as [[ct opt] Hp]. rewrite Hp. cbn [bind].
     destruct (legacy && negb (is_empty ct) && negb (eqfold ct type_multipart_mixed))%bool; auto with eml.
-  - intros st2 _. destruct (negb a); auto with eml. destruct (negb d); auto with eml.
+  - intros st2 _. destruct (aerr f || aerr t || aerr c || aerr b)%bool; auto with eml.
+    destruct d; auto with eml.
 Qed.
 
 Lemma parse_eml_np : forall t, np (parse_eml fnof legacy t).
@@ -280,10 +281,10 @@ Proof.
 Qed.
 
 (* an entity whose only part carries the Content-Disposition [cd] inside multipart/mixed *)
-Definition bits_ok : bits := mkbits true true true true.
+Definition bits_ok : bits := mkbits true [] (Some []) (Some []) (Some []).
 Definition leaf (h : hdr) : entity := Entity h MTNone bits_ok [] true.
 Definition mixed_with (parts : list entity) : top :=
-  mktop true true true
+  mktop true ANone ANone ANone ANone DNone
     (Entity [(hdr_content_type, bs "multipart/mixed; boundary=BB")]
             (MTOk type_multipart_mixed None true) bits_ok parts true).
 Definition witness_cd (cd : bytes) : top :=
@@ -296,10 +297,10 @@ Lemma eml_old_panics_one : parse_eml_old (witness_cd (bs "attachment; filename=x
 Proof. vm_compute. reflexivity. Qed.
 (* … and the repaired one returns the file *)
 Lemma eml_fixed_on_witness :
-  exists st, parse_eml_fixed (witness_cd (bs "attachment; filename=")) = Ok st /\ m_atts st = [mkf [] []].
+  exists st, parse_eml_fixed (witness_cd (bs "attachment; filename=")) = Ok st /\ m_atts st = [mkf [] [] []].
 Proof. eexists. split; vm_compute; reflexivity. Qed.
 Lemma eml_fixed_unquoted :
-  exists st, parse_eml_fixed (witness_cd (bs "attachment; filename=xy")) = Ok st /\ m_atts st = [mkf (bs "xy") []].
+  exists st, parse_eml_fixed (witness_cd (bs "attachment; filename=xy")) = Ok st /\ m_atts st = [mkf (bs "xy") [] []].
 Proof. eexists. split; vm_compute; reflexivity. Qed.
 
 (* nesting: a non-trivial tree for the non-vacuity example *)
